@@ -15,4 +15,4 @@ ASSUMPTIONS = ["the element validators behave as the C10 rules establish"]
 
 
 def run(project, rep):
-    H.b_rules(project, rep)
+    rep.run(H.b_rules, project, rep)
